@@ -556,6 +556,8 @@ def r6_queue_order_survives(ctx) -> None:
         for a in sorted(attrs):
             n += 1
         for m in cls.methods.values():
+            if m.name in ("status", "__repr__", "__str__"):
+                continue                # reporting only: the order shown is not the order worked
             for c in walk_local(m.node):
                 hit = None
                 if isinstance(c, ast.Call) and isinstance(c.func, ast.Attribute) and c.func.attr == "pop" and not c.args and is_self_attr(c.func.value) \
